@@ -329,6 +329,31 @@ endmodule
   buf b0 (y, q0);
 endmodule
 """, [fd], "s"
+    # identifiers that end in a declaration keyword after a `$` (a word boundary for a regular expression, not for Verilog)
+    yield "identifiers-ending-in-$input-and-$output", """module t (a$input , b, x$output , y);
+  input a$input , b;
+  output x$output , y;
+  wire w$input ;
+  nand g$input (w$input , a$input , b);
+  not g$output (x$output , w$input );
+  and k$input (y, w$input , b);
+endmodule
+""", [], "t"
+    # a module without ports: a constant on a blackbox pin
+    yield "module-without-ports", """module np ();
+  fd2 r0 (.CD(1'b0), .CP(1'b1), .D(1'b0), .Q(), .QN());
+endmodule
+""", [fd], "np"
+    # a spare instance: every pin written and left unconnected, next to a connected one (the pins exist all the same)
+    yield "instance-with-every-pin-unconnected", """module s (ck, rst, d0, y);
+  input ck, rst, d0;
+  output y;
+  wire q0;
+  fd2 spare (.CD(), .CP(), .D(), .Q(), .QN());
+  fd2 r0 (.CD(rst), .CP(ck), .D(d0), .Q(q0), .QN());
+  buf b0 (y, q0);
+endmodule
+""", [fd], "s"
     yield "flop-pins-that-are-suffixes-of-each-other", """module s (ck, rst, d0, d1, y, z);
   input ck, rst, d0, d1;
   output y, z;
